@@ -391,8 +391,217 @@ Section CG.
       assert (Ezd : zd == 0) by (apply dot_zero_l; exact Zd).
       assert (EnH : nH == 0) by (apply dot_zero_l; exact Zd).
       assert (Er : r == 0).
-      { apply sq_zero. rewrite Hsq, Earg. rewrite !(Qdiv_zero_r _ d2 Ed2). rewrite (Qdiv_zero_r 0 2) by (rewrite (Qdiv_zero_r _ d2 Ed2) at 1; reflexivity || idtac). ring. }
+      { apply sq_zero. rewrite Hsq, Earg. rewrite !(Qdiv_zero_r _ d2 Ed2). reflexivity. }
       assert (Et : tau == 0). { rewrite Etau, Er, (Qdiv_zero_r _ d2 Ed2). field. }
       rewrite Et, Ezd, Ed2, EnH. split; [lra|]. apply Qle_shift_div_r; lra.
   Qed.
+
+  Lemma inv_step : forall D step res dir cur, cg_inv D step res dir cur -> 0 < bil H dir dir ->
+    let alpha := qdiv cur (bil H dir dir) in
+    let cand := vadd step (vscale alpha dir) in
+    let res' := vadd res (vscale alpha (mv H dir)) in
+    let nr2 := dot res' res' in
+    dot cand cand < D ->
+    cg_inv D cand res' (vsub (vscale (qdiv nr2 cur) dir) res') nr2.
+  Proof.
+    intros D step res dir cur I HnH alpha cand res' nr2 Hin.
+    pose proof I as [Ls Lr Ld Ec Erd Eres _ Hphi].
+    pose proof (Hd_length dir) as LHd. pose proof (cur_nonneg _ _ _ _ _ I) as Hcur.
+    assert (L1 : length step = length (vscale alpha dir)) by (rewrite vscale_length; congruence).
+    assert (L2 : length res = length (vscale alpha (mv H dir))) by (rewrite vscale_length; congruence).
+    assert (Lc : length cand = n) by (unfold cand; rewrite vadd_length; assumption).
+    assert (Lr' : length res' = n) by (unfold res'; rewrite vadd_length; assumption).
+    assert (Ea : alpha == cur / bil H dir dir) by (unfold alpha; apply qdiv_eq).
+    assert (Ean : alpha * bil H dir dir == cur) by (rewrite Ea; field; lra).
+    assert (E0 : dot res' dir == 0).
+    { unfold res'. rewrite (dot_vadd_l res _ _ L2), dot_vscale_l, (dot_comm (mv H dir) dir).
+      change (dot dir (mv H dir)) with (bil H dir dir). rewrite Erd. lra. }
+    constructor.
+    - exact Lc.
+    - exact Lr'.
+    - rewrite vsub_length; rewrite vscale_length; congruence.
+    - reflexivity.
+    - assert (L3 : length (vscale (qdiv nr2 cur) dir) = length res') by (rewrite vscale_length; congruence).
+      rewrite (dot_vsub_r res' _ _ L3), dot_vscale_r, E0. unfold nr2. ring.
+    - intros y Ly. unfold res', cand.
+      rewrite (dot_vadd_r y res _ L2), dot_vscale_r.
+      rewrite (bil_vadd_r n H y step (vscale alpha dir) SH LH Ly Ls) by (rewrite vscale_length; exact Ld).
+      rewrite (bil_vscale_r n H y alpha dir SH Ly Ld). rewrite (Eres y Ly). unfold bil. ring.
+    - exact Hin.
+    - unfold cand, res'. rewrite (phi2_axpy _ _ _ _ _ alpha I).
+      assert (0 <= alpha * cur). { apply mul_nonneg; [rewrite Ea; apply Qle_shift_div_l; lra|exact Hcur]. }
+      assert (E : alpha * alpha * bil H dir dir == alpha * cur).
+      { transitivity (alpha * (alpha * bil H dir dir)); [ring|]. rewrite Ean. reflexivity. }
+      rewrite E. lra.
+  Qed.
+
+  (* what the theorems say about an answer of trustRegionCG *)
+  Definition cg_good (D : Q) (r : tr_cg_result Q) : Prop := dot (cg_step r) (cg_step r) <= D /\ cg_pred r <= 0.
+
+  Lemma q_loop_good : forall fuel tol2 delta step res dir cur it, 0 < delta ->
+    cg_inv (delta * delta) step res dir cur ->
+    let r := q_loop sq (q_border sq) fuel H g tol2 delta step res dir cur it in
+    ((cg_exit r = 1 \/ cg_exit r = 2)%nat -> sqrt_ok_at sq (cg_sqarg r)) -> cg_good (delta * delta) r.
+  Proof.
+    induction fuel as [|k IH]; intros tol2 delta step res dir cur it Hd I.
+    - cbv zeta. unfold q_loop, cg_good. cbn [tr_cg_loop cg_step cg_pred o_zero qops]. intros _.
+      split; [apply Qlt_le_weak; exact (inv_in _ _ _ _ _ I)|lra].
+    - rewrite q_loop_S. cbv zeta. unfold cg_good. change (dot dir (mv H dir)) with (bil H dir dir).
+      destruct (Qle_bool (bil H dir dir) 0) eqn:E1.
+      + cbn [cg_exit cg_sqarg cg_step cg_pred]. intros Hs. apply Qle_bool_true in E1.
+        apply (border_exit_good delta step res dir cur Hd I); [left; exact E1|apply Hs; left; reflexivity].
+      + apply Qle_bool_false in E1.
+        destruct (Qle_bool (qmul delta delta) _) eqn:E2.
+        * cbn [cg_exit cg_sqarg cg_step cg_pred]. intros Hs. apply Qle_bool_true in E2. rewrite qmul_eq in E2.
+          apply (border_exit_good delta step res dir cur Hd I); [right; split; assumption|apply Hs; right; reflexivity].
+        * apply Qle_bool_false in E2. rewrite qmul_eq in E2.
+          pose proof (inv_step _ _ _ _ _ I E1 E2) as I'. cbv zeta in I'.
+          destruct (qltb _ tol2).
+          -- cbn [cg_exit cg_sqarg cg_step cg_pred]. intros _. split; [apply Qlt_le_weak; exact E2|].
+             rewrite errdiff_eq. pose proof (inv_phi _ _ _ _ _ I'). apply Qle_shift_div_r; lra.
+          -- apply IH; assumption.
+  Qed.
+
+  Lemma zeros_vzero : forall v : vec, vzero (map (fun _ => 0) v).
+  Proof. induction v; constructor; [reflexivity|assumption]. Qed.
+
+  Lemma mv_vzero : forall x, vzero x -> vzero (mv H x).
+  Proof. intros x Z. unfold mv. apply Forall_forall. intros a Ha. apply in_map_iff in Ha. destruct Ha as [r [<- _]]. apply vzero_dot_r. exact Z. Qed.
+
+  Lemma init_inv : forall delta, 0 < delta -> cg_inv (delta * delta) (map (fun _ => 0) g) g (vneg g) (dot g g).
+  Proof.
+    intros delta Hd. pose proof (zeros_vzero g) as Z.
+    constructor.
+    - rewrite map_length. exact Lg.
+    - exact Lg.
+    - rewrite vneg_length. exact Lg.
+    - reflexivity.
+    - apply dot_vneg_r.
+    - intros y Ly. unfold bil. rewrite (vzero_dot_r _ y (mv_vzero _ Z)). ring.
+    - rewrite (dot_zero_l _ _ Z). nra.
+    - unfold phi2. rewrite !(vzero_dot_r _ _ Z). lra.
+  Qed.
+
+  (* trustRegionCG as repaired: the step stays inside the trust region and the predicted change is not positive *)
+  Theorem q_cg_good : forall tol delta, 0 < delta ->
+    let r := q_cg sq H g tol delta in
+    ((cg_exit r = 1 \/ cg_exit r = 2)%nat -> sqrt_ok_at sq (cg_sqarg r)) -> cg_good (delta * delta) r.
+  Proof.
+    intros tol delta Hd. unfold q_cg, tr_cg, tr_cg_with. cbn [o_ltb qops].
+    destruct (qltb _ _).
+    - cbv zeta. unfold cg_good. cbn [cg_step cg_pred o_zero qops]. intros _. split; [rewrite (dot_zero_l _ _ (zeros_vzero g)); nra|lra].
+    - apply (q_loop_good (10 * length g) _ delta _ _ _ _ _ Hd (init_inv delta Hd)).
+  Qed.
 End CG.
+
+(* ================= Part D: whole steps and runs of the repaired code ================= *)
+Section QRun.
+  Variable sq : Q -> Q.
+  Variable f : vec -> Q.
+  Variable fd : vec -> Q * vec * list vec.
+
+  (* the objective has dimension n and a symmetric Hessian *)
+  Definition fd_shape (n : nat) : Prop :=
+    forall x, length (snd (fst (fd x))) = n /\ length (snd (fd x)) = n /\ symm n (snd (fd x)).
+
+  Definition sqrt_ok_for (r : tr_cg_result Q) : Prop := (cg_exit r = 1 \/ cg_exit r = 2)%nat -> sqrt_ok_at sq (cg_sqarg r).
+
+  Lemma q_tr_step_unfold : forall s,
+    q_tr_step sq f fd s = q_tr_step_with sq f fd (cg_pred (q_tr_solve sq s)) (cg_step (q_tr_solve sq s)) s.
+  Proof. reflexivity. Qed.
+
+  Theorem q_tr_step_good : forall n s, coherent f fd -> fd_shape n -> g_tr_consistent Q fd s ->
+    0 < tr_delta s -> 0 < tr_ratio s -> sqrt_ok_for (q_tr_solve sq s) ->
+    let r := q_tr_solve sq s in
+    dot (cg_step r) (cg_step r) <= tr_delta s * tr_delta s /\ cg_pred r <= 0 /\
+    tr_val (q_tr_step sq f fd s) <= tr_val s.
+  Proof.
+    intros n s Hc Hsh Hs Hd Hr Hsq r.
+    destruct (Hsh (tr_pt s)) as [Lg [LH SH]]. unfold g_tr_consistent in Hs. rewrite Hs in Lg, LH, SH. cbn [fst snd] in Lg, LH, SH.
+    destruct (q_cg_good sq n (tr_hess s) (tr_grad s) Lg LH SH (tr_tolerance Q (qops sq) (tr_grad s)) (tr_delta s) Hd Hsq) as [Hin Hp].
+    split; [exact Hin|]. split; [exact Hp|].
+    rewrite q_tr_step_unfold. apply q_step_with_never_increases; assumption.
+  Qed.
+
+  Lemma q_tr_run_is_run_with : forall n s,
+    q_tr_run sq f fd n s = q_tr_run_with sq f fd (fun _ s' => (cg_pred (q_tr_solve sq s'), cg_step (q_tr_solve sq s'))) n s.
+  Proof. intros. apply (g_tr_run_is_run_with Q (qops sq) Qle_bool q099 f fd). Qed.
+
+  (* after init and after any number of steps: consistent state, the ratio set by init, a positive radius; the next step
+     keeps its trial point inside the trust region, predicts no increase and does not increase the value *)
+  Theorem q_tr_run_good : forall n x0 d0 k, coherent f fd -> fd_shape n -> 0 < d0 ->
+    let s := q_tr_run sq f fd k (q_tr_init sq fd x0 d0) in
+    g_tr_consistent Q fd s /\ 0 < tr_delta s /\
+    (sqrt_ok_for (q_tr_solve sq s) ->
+     let r := q_tr_solve sq s in
+     dot (cg_step r) (cg_step r) <= tr_delta s * tr_delta s /\ cg_pred r <= 0 /\
+     tr_val (q_tr_run sq f fd (S k) (q_tr_init sq fd x0 d0)) <= tr_val s).
+  Proof.
+    intros n x0 d0 k Hc Hsh Hd s.
+    destruct (g_tr_run_consistent Q (qops sq) Qle_bool q099 q01 f fd k x0 d0) as [Cs Cr]. fold (q_tr_run sq f fd) in Cs, Cr. fold (q_tr_init sq fd) in Cs, Cr. fold s in Cs, Cr.
+    assert (Dp : 0 < tr_delta s).
+    { unfold s. rewrite q_tr_run_is_run_with. apply q_run_with_radius_positive. exact Hd. }
+    split; [exact Cs|]. split; [exact Dp|]. intros Hsq.
+    assert (Rp : 0 < tr_ratio s) by (rewrite Cr; reflexivity).
+    exact (q_tr_step_good n s Hc Hsh Cs Dp Rp Hsq).
+  Qed.
+End QRun.
+
+(* ================= Part E: examples and the regression witnesses of the repair fd35712b ================= *)
+(* floor of the square root with 30 binary digits after the point: exact on squares of (small) rationals *)
+Definition fsqrt (x : Q) : Q := Qred (Z.sqrt (Qnum x * Zpos (Qden x) * 4 ^ 30) # (Qden x * 2 ^ 30)).
+
+Definition ex_H : mat := [[1; 0]; [0; 16]].
+Definition ex_g : vec := [16 # 5; - (12 # 5)].
+
+Lemma ex_H_symm : symm 2 ex_H.
+Proof.
+  intros y x Ly Lx. destruct y as [|y1 [|y2 [|]]]; try discriminate. destruct x as [|x1 [|x2 [|]]]; try discriminate.
+  unfold bil, ex_H, mv. cbn [map dot]. rewrite !qadd_eq, !qmul_eq. ring.
+Qed.
+
+(* |g| = 4, tolerance 2, radius 25/12: the second CG iteration crosses the border.  Repaired formula: the step ends ON the
+   border and predicts a decrease; the hypotheses of q_cg_good hold (the root is taken of the square of 236/783) *)
+Example ex_cg_border_second_iteration :
+  let r := q_cg fsqrt ex_H ex_g 2 (25 # 12) in
+  cg_exit r = 2%nat /\ cg_iters r = 1%nat /\ sqrt_ok_at fsqrt (cg_sqarg r) /\ Qeq_bool (cg_sqarg r) ((236 # 783) * (236 # 783)) = true /\
+  Qeq_bool (dot (cg_step r) (cg_step r)) ((25 # 12) * (25 # 12)) = true /\ cg_pred r < 0.
+Proof. vm_compute. repeat split; try reflexivity; discriminate. Qed.
+
+(* the formula before the repair on the same input: exact square root, and the step (-3, 1/6) has length > 3 with radius 25/12 *)
+Example ex_cg_old_border_leaves_region_refuted :
+  let r := q_cg_old fsqrt ex_H ex_g 2 (25 # 12) in
+  cg_exit r = 2%nat /\ sqrt_ok_at fsqrt (cg_sqarg r) /\ cg_step r = [- (3 # 1); 1 # 6] /\
+  (25 # 12) * (25 # 12) < dot (cg_step r) (cg_step r).
+Proof. vm_compute. repeat split; try reflexivity; discriminate. Qed.
+
+(* the objective of the failing input of the repaired defect: f(x, y) = (x^2 + 16 y^2) / 2, start (3, -1), radius 2 *)
+Definition ex_f : vec -> Q := quad_f ex_H [0; 0].
+Definition ex_fd : vec -> Q * vec * list vec := quad_fd ex_H [0; 0].
+Definition ex_s0 : tr_state := q_tr_init fsqrt ex_fd [3; -1] 2.
+
+Lemma ex_coherent : coherent ex_f ex_fd.
+Proof. intros x. reflexivity. Qed.
+Lemma ex_shape : fd_shape ex_fd 2.
+Proof.
+  intros x. unfold ex_fd, quad_fd. cbn [fst snd]. split; [|split; [reflexivity|exact ex_H_symm]].
+  apply quad_grad_length; reflexivity.
+Qed.
+
+(* with the formula of before fd35712b the second step went from 3.946 to 7.39 (the C++ gave 12.5, 3.9464068, 7.3915939) and
+   moved the point by more than 5 with radius 2; fsqrt rounds the irrational roots of this run down at 2^-30 *)
+Example ex_old_formula_increases_value_refuted :
+  let s1 := q_tr_step_old fsqrt ex_f ex_fd ex_s0 in
+  let s2 := q_tr_step_old fsqrt ex_f ex_fd s1 in
+  Qeq_bool (tr_val ex_s0) (25 # 2) = true /\ tr_val s1 < 4 /\ 7 < tr_val s2 /\ Qeq_bool (tr_delta s1) 2 = true /\
+  5 * 5 < dot (vsub (tr_pt s2) (tr_pt s1)) (vsub (tr_pt s2) (tr_pt s1)).
+Proof. vm_compute. repeat split; reflexivity. Qed.
+
+(* the repaired step on the same input: 12.5 > value after one step > value after two steps, second step no longer than the radius
+   (up to the 2^-30 of fsqrt) *)
+Example ex_repaired_run_decreases :
+  let s1 := q_tr_run fsqrt ex_f ex_fd 1 ex_s0 in
+  let s2 := q_tr_run fsqrt ex_f ex_fd 2 ex_s0 in
+  tr_val s2 < tr_val s1 /\ tr_val s1 < tr_val ex_s0 /\
+  dot (vsub (tr_pt s2) (tr_pt s1)) (vsub (tr_pt s2) (tr_pt s1)) <= tr_delta s1 * tr_delta s1.
+Proof. vm_compute. repeat split; try reflexivity; discriminate. Qed.
